@@ -73,6 +73,15 @@ ASSUMPTIONS = [
     'the bound and nothing is claimed for them',
     'dtype x provenance family: basis values are chosen exact in the dtype; laws are judged at 1e-9 (1e-6 for '
     'a float32 basis); a model must use the RDMs it was handed by position, regardless of their rdm descriptors',
+    'Fitter wrapper: Fitter(f, **kw)(model, data, ...) must equal the direct call bit for bit, however the '
+    'keyword arguments are split, also when handed out by input_check_model for several models',
+    'all-zero weights (training RDMs exactly orthogonal to the basis) are judged, not excluded: the zero '
+    'prediction scores 0 by the library\'s convention, so no competitor may score above 0 (+tol)',
+    'fit_select is also run with the rank-based measures of compare() (spearman, kendall, tau-a, rho-a): '
+    'beyond the methods the statement lists, selection only; the regression fitters reject these '
+    'measures (ValueError after pooling) - executed, outcome recorded, arguments must stay untouched',
+    'never reached by construction: fitter.py:163 (fit_optimize normalising an exactly-zero BFGS result) '
+    'and pooling.py:74-75 (second, shadowed rho-a branch)',
     'a 1-D sigma_k (variances) is accepted by compare() but documented for no fitter: fitters that '
     'accept it are judged, rejections are recorded in the evidence notes, not reported',
 ]
@@ -105,6 +114,9 @@ BOUNDS = {
                                           'non-contiguous rdm descriptor, by subsample with repeats}: all model laws '
                                           'against the check\'s own copy of the rows BY POSITION + the closed-form '
                                           'fitters (3 method/sigma_k x {None, bootstrap vector}); n_cond=5, k=3',
+              'wrapper / zero / ranks / edges': '6 fitters through Fitter (3 routes) vs direct call; 16 exactly '
+                                                'orthogonal fits; fit_select x 4 rank measures x 3 problems x 2 '
+                                                'selections; rejected methods / vector lengths, default theta',
               'conditioning family': 'fit_regress, fit_regress_nn, fit_select x cosine_cov, corr_cov x sigma_k '
                                      'eigenvalue spread {1, 1e2, 1e3} x n_cond {8, 10} x k {2, 3} x {None, one '
                                      'bootstrap vector}, stack of 3; 144 fits',
@@ -369,6 +381,14 @@ def shards(tier, seed):
                     out.append({'kind': 'cond', 'fitter': fitter, 'n_cond': n_cond, 'k': k,
                                 'n_data': n_data, 'fill': fill, 'mask': [],
                                 'desc': DESCS[(n_cond + k) % 3]})
+    # K: every fitter through the Fitter wrapper object / input_check_model, zero-projection problems,
+    #    rank-based measures for selection, rejected inputs and default parameters
+    for fitter in ('fit_regress', 'fit_regress_nn', 'fit_select', 'fit_interpolate', 'fit_optimize',
+                   'fit_optimize_positive'):
+        out.append({'kind': 'wrapper', 'fitter': fitter})
+    out.append({'kind': 'zero'})
+    out.append({'kind': 'rank_select'})
+    out.append({'kind': 'edges'})
     # F: sigma_k forms accepted by compare() but not documented for the fitters (report only)
     out.append({'kind': 'sigma_forms'})
     return out
@@ -507,11 +527,29 @@ def _call(case, S, seed, calls_out=None, env=None, ctx=None):
     with installed(rng), _time_limit(20 if f in CLOSED else 300):
         if f.startswith('Model.fit'):
             theta = S['model'].fit(S['data'], **kw)
-        elif f in ('fit_select', 'fit_interpolate'):
-            theta = getattr(F, f)(S['model'], S['data'], **kw)
         else:
-            theta = getattr(F, f)(S['model'], S['data'], ridge_weight=0,
-                                  normalize=bool(case.get('normalize', True)), **kw)
+            if f not in ('fit_select', 'fit_interpolate', 'fit_mock'):
+                kw.update(ridge_weight=0, normalize=bool(case.get('normalize', True)))
+            via = case.get('via')
+            if via is None:
+                theta = getattr(F, f)(S['model'], S['data'], **kw)
+            else:       # the same call through the Fitter wrapper object
+                at_call = {k_: kw.pop(k_) for k_ in ('pattern_idx', 'pattern_descriptor')}
+                if via == 'Fitter':                       # settings at construction
+                    theta = F.Fitter(getattr(F, f), **kw)(S['model'], S['data'], **at_call)
+                elif via == 'Fitter-call-kwargs':         # settings at call time
+                    theta = F.Fitter(getattr(F, f))(S['model'], S['data'], **at_call, **kw)
+                elif via == 'input_check_model':          # one fitter object handed out for two models
+                    from rsatoolbox.util.inference_util import input_check_model
+                    fit = F.Fitter(getattr(F, f), **kw)
+                    models, _, _, fitters = input_check_model([S['model'], S['model']], None, fit)
+                    _, _, _, defaults = input_check_model(S['model'])
+                    if len(fitters) != 2 or fitters[0] is not fit or fitters[1] is not fit \
+                            or defaults[0] is not S['model'].default_fitter:
+                        raise AssertionError('input_check_model did not hand out the fitter for every model')
+                    theta = fitters[1](models[1], S['data'], **at_call)
+                else:
+                    raise ValueError(via)
     if calls_out is not None:
         calls_out.extend(rng.calls)
     if ctx is not None:
@@ -572,6 +610,18 @@ def _judge_weighted(case, ctx, S, theta, fname):
         if nonneg and star is None and nrm == 0:
             ctx.exclude('no non-negative direction with positive similarity (fit returns 0)')
             return ok
+        if nrm == 0:
+            # all-zero weights: the zero prediction has similarity 0 with everything (the library's own
+            # convention), so the fit is right iff no competitor scores above 0
+            best = None
+            for t in ref.sign_vectors(k, nonneg) + ([] if star is None else [star.tolist()]):
+                sc_ = ref.score(method, 'weighted', S['basis'], t, S['positions'], S['data_sel'], S['sig_ref'])
+                if sc_ is not None and (best is None or sc_ > best[0]):
+                    best = (sc_, t)
+            if best is None or best[0] <= tol:
+                ctx.count('zero weights returned and no competitor scores above 0')
+                ctx.outcome((fname, method, 'zero weights'))
+                return ok
         s_star = None if star is None else ref.score(method, 'weighted', S['basis'], star,
                                                      S['positions'], S['data_sel'], S['sig_ref'])
         ctx.fail(sigp + '|prediction-undefined', case,
@@ -806,7 +856,7 @@ def _index_plan(shard, tier):
 
 def run_shard(shard, ctx):
     kind = shard['kind']
-    if kind in ('laws', 'sigma_forms', 'explore'):
+    if kind in ('laws', 'sigma_forms', 'explore', 'wrapper', 'zero', 'rank_select', 'edges'):
         run_case(shard, ctx)
         return
     if kind == 'nnls':
@@ -901,6 +951,14 @@ def run_case(case, ctx):
         _laws(case, ctx)
     elif kind == 'sigma_forms':
         _sigma_forms(case, ctx)
+    elif kind == 'wrapper':
+        _wrapper(case, ctx)
+    elif kind == 'zero':
+        _zero_projection(case, ctx)
+    elif kind == 'rank_select':
+        _rank_select(case, ctx)
+    elif kind == 'edges':
+        _edges(case, ctx)
     else:
         raise ValueError(kind)
 
@@ -1399,6 +1457,151 @@ def _laws_base(case, ctx):
         ctx.outcome(('base fit', np.asarray(th).shape))
         if np.asarray(th).shape != (0,):
             ctx.fail('Model|base|fit-returns-parameters', case, repr(th))
+
+
+# ----------------------------------------------------------------------------- K: wrapper, zero, ranks, edges
+def _wrapper(case, ctx):
+    """Fitter(fit_fun, **kwargs)(model, data, ...) == fit_fun(model, data, ..., **kwargs), bit for bit,
+    whichever way the keyword arguments are split between construction and call, also when the
+    object is handed out by input_check_model; arguments unchanged (the uniform snapshot in _call)"""
+    f = case['fitter']
+    slow = f in RAND_FITTERS
+    kind_k = 3 if f in ('fit_select', 'fit_interpolate') else 2
+    for method, sigma in ((('cosine', 'none'),) if slow else (('cosine', 'none'), ('corr_cov', 'spd'))):
+        for idx in ((None,) if slow else (None, [4, 3, 2, 2, 0])):
+            c = {'kind': 'fit', 'fitter': f, 'n_cond': 5, 'k': kind_k, 'n_data': 2, 'fill': 0, 'mask': [],
+                 'desc': 'big', 'method': method, 'sigma': sigma, 'idx': idx, 'normalize': True, 'menu': 1,
+                 'perturb': False}
+            fname = _fname(c)
+            with ctx.guard('%s|%s,via-Fitter' % (fname, _cfg(c)), c):
+                S = _build(c, ctx.seed)
+                if not _posed(c, S):
+                    ctx.exclude(NOT_POSED)
+                    continue
+                direct = _call(c, S, ctx.seed, ctx=ctx)
+                ctx.case(c)
+                if S['kind'] == 'weighted':
+                    _judge_weighted(c, ctx, S, direct, fname)
+                else:
+                    _judge_candidates(c, ctx, S, direct, fname)
+                for via in ('Fitter', 'Fitter-call-kwargs', 'input_check_model'):
+                    cv = dict(c, via=via)
+                    got = _call(cv, _build(cv, ctx.seed), ctx.seed, ctx=ctx)
+                    ctx.case(cv)
+                    if not _same_bits(direct, got):
+                        ctx.fail('Fitter|%s,%s|differs-from-direct-call' % (f, via), cv,
+                                 'direct call %r, through %s %r' % (direct, via, got))
+    if f == 'fit_regress':       # the formally acceptable do-nothing fitter, wrapped
+        c = {'kind': 'fit', 'fitter': 'fit_mock', 'n_cond': 5, 'k': 2, 'n_data': 2, 'fill': 0, 'mask': [],
+             'desc': 'index', 'method': 'cosine', 'sigma': 'none', 'idx': None, 'via': 'Fitter', 'perturb': False}
+        with ctx.guard('fit_mock|via-Fitter', c):
+            th = _call(c, _build(c, ctx.seed), ctx.seed, ctx=ctx)
+            ctx.case(c)
+            if np.asarray(th).shape != (2,) or np.any(np.asarray(th) != 0):
+                ctx.fail('fit_mock|via-Fitter|not-zeros', c, repr(th))
+
+
+def _zero_projection(case, ctx):
+    """training RDMs exactly orthogonal to every basis RDM: the unnormalised weights are exactly zero
+    (the normalise-on branch must cope with norm 0) and every weight vector scores exactly 0"""
+    from rsatoolbox.rdm import RDMs
+    from rsatoolbox import model as M
+    probs = {'cosine': ([[1., 0, 0, 0, 0, 0], [0, 2., 0, 0, 0, 0]], [[0, 0, 1., 2, 0, 1], [0, 0, 2., 1, 3, 0]]),
+             # mean-free basis RDMs, training RDMs equal on the two entries the basis contrasts
+             'corr': ([[1., -1, 0, 0, 0, 0], [0, 0, 2., -2, 0, 0]], [[3., 3, 1, 1, 0, 5], [2., 2, 4, 4, 1, 0]])}
+    for method, (basis, data) in probs.items():
+        for fitter in ('fit_regress', 'fit_regress_nn'):
+            for normalize in (True, False):
+                for n_data in (1, 2):
+                    c = dict(case, fitter=fitter, method=method, sigma='none', normalize=normalize, k=2,
+                             n_data=n_data, n_cond=4)
+                    S = {'model': M.ModelWeighted('m', RDMs(np.array(basis))),
+                         'data': RDMs(np.array(data[:n_data])), 'positions': [0, 1, 2, 3],
+                         'data_sel': data[:n_data], 'basis': basis, 'data_full': data[:n_data],
+                         'kind': 'weighted', 'sig_lib': None, 'sig_ref': None, 'pattern_idx': None,
+                         'pattern_descriptor': None}
+                    with ctx.guard('%s|%s,zero-projection' % (fitter, _cfg(c)), c):
+                        theta = _call(c, S, ctx.seed, ctx=ctx)
+                        ctx.case(c)
+                        if np.any(np.asarray(theta) != 0):
+                            ctx.count('zero-projection problem answered with non-zero weights')
+                        _judge_weighted(c, ctx, S, theta, fitter)
+
+
+def _rank_select(case, ctx):
+    """fit_select accepts every measure of compare(): also for the rank-based ones the returned
+    candidate must be the best single candidate (beyond the methods the statement lists; selection only)"""
+    for method in ('spearman', 'kendall', 'tau-a', 'rho-a'):
+        for n_cond, k, fill in ((4, 3, 0), (5, 3, 1), (5, 4, 2)):
+            for idx in (None, list(range(n_cond - 1, 0, -1)) + [1]):
+                c = {'kind': 'fit', 'fitter': 'fit_select', 'n_cond': n_cond, 'k': k, 'n_data': 3, 'fill': fill,
+                     'mask': [], 'desc': 'stim', 'method': method, 'sigma': 'none', 'idx': idx, 'perturb': False}
+                run_case(c, ctx)
+
+
+def _edges(case, ctx):
+    """inputs the fitters / models reject, and parameters left at their default"""
+    from rsatoolbox.rdm import RDMs
+    from rsatoolbox import model as M
+    from rsatoolbox.model import fitter as F
+    seed = ctx.seed
+    # measures the regression fitters do not support: pooled first, then rejected; arguments untouched
+    for fitter in ('fit_regress', 'fit_regress_nn'):
+        for method in ('spearman', 'kendall', 'tau-a', 'rho-a', 'euclid', 'no-such-measure'):
+            c = {'kind': 'fit', 'fitter': fitter, 'n_cond': 4, 'k': 2, 'n_data': 2, 'fill': 0, 'mask': [],
+                 'desc': 'index', 'method': method, 'sigma': 'none', 'idx': None, 'normalize': True,
+                 'perturb': False}
+            S = _build(dict(c, method='cosine'), seed)
+            ctx.case(dict(case, probe=[fitter, method]), nontrivial=False)
+            before = _snapshot(S)
+            try:
+                th = _call(c, S, seed)
+                ctx.outcome((fitter, method, 'accepted', np.asarray(th).shape))
+            except ValueError:
+                ctx.outcome((fitter, method, 'ValueError'))
+            except Exception as e:               # rejected in some other way: recorded
+                ctx.outcome((fitter, method, type(e).__name__))
+            if _snapshot(S) != before:
+                ctx.fail('%s|unsupported-method|modifies-argument' % fitter, c, 'arguments changed by a rejected call')
+    # something that is neither a model nor a list of models
+    from rsatoolbox.util.inference_util import input_check_model
+    ctx.case(dict(case, probe=['input_check_model', 'not a model']), nontrivial=False)
+    try:
+        input_check_model(3)
+        ctx.outcome(('input_check_model', 'int accepted'))
+    except Exception as e:
+        ctx.outcome(('input_check_model', 'int', type(e).__name__))
+    # vectors whose length is no n(n-1)/2
+    for cls in (M.ModelFixed, M.ModelSelect, M.ModelWeighted, M.ModelInterpolate):
+        arg = np.arange(1.0, 6.0) if cls is M.ModelFixed else np.arange(1.0, 11.0).reshape(2, 5)
+        ctx.case(dict(case, probe=[cls.__name__, 'vector of impossible length']), nontrivial=False)
+        try:
+            cls('bad', arg)
+            ctx.outcome((cls.__name__, 'impossible length accepted'))
+        except Exception as e:
+            ctx.outcome((cls.__name__, 'impossible length', type(e).__name__))
+    # theta left out: the weighted model predicts the plain sum with both methods
+    basis, _ = _problem(seed, 4, 3, 1, 0, [])
+    for rep_ in ('rdms', 'vectors'):
+        m = M.ModelWeighted('w', RDMs(np.array(basis)) if rep_ == 'rdms' else np.array(basis))
+        c = dict(case, probe=['ModelWeighted', rep_, 'theta=None'])
+        ctx.case(c)
+        v = np.asarray(m.predict(), float)
+        r = np.asarray(m.predict_rdm().get_vectors(), float)
+        want = ref.predict('weighted', basis, [1.0, 1.0, 1.0])
+        if not allclose(v, want, 1e-9) or r.shape != (1, 6) or not allclose(r[0], want, 1e-9):
+            ctx.fail('ModelWeighted|theta=None|not-the-plain-sum', c, '%r / %r, want %r' % (v, r, want))
+    # the interpolation model has two different defaults (predict: 0.5/0.5 of the first pair, predict_rdm:
+    # all ones) - executed and recorded, not judged (see ASSUMPTIONS)
+    mi = M.ModelInterpolate('i', np.array(basis))
+    ctx.case(dict(case, probe=['ModelInterpolate', 'theta=None']), nontrivial=False)
+    vi = np.asarray(mi.predict(), float)
+    ri = np.asarray(mi.predict_rdm().get_vectors(), float)[0]
+    ctx.note('ModelInterpolate theta=None', 'predict() == predict_rdm(): %s' % bool(allclose(vi, ri, 1e-9)))
+    ms = M.ModelSelect('s', np.array(basis))
+    ctx.case(dict(case, probe=['ModelSelect', 'theta default']))
+    if not _eqnan(ms.predict(), basis[0]) or not _eqnan(ms.predict_rdm().get_vectors()[0], basis[0]):
+        ctx.fail('ModelSelect|theta=default|not-the-first-candidate', case, 'default theta')
 
 
 # ----------------------------------------------------------------------------- F: sigma forms
